@@ -112,7 +112,8 @@ pub fn finder_nondet_ranker<const NLEN: usize, const HCAP: usize>(mode: u8, hmin
 
 /// Concrete long needles. family 0: rare pair near the front ("QZ" + a^31);
 /// 1: small period (ab)^16 a; 2: a^33; 3: rare byte late (a^20 Q a^11 Z);
-/// 4: bytes equal mod 64 (A=0x41, 0x01, 0x81 mixed).
+/// 4: bytes equal mod 64 (A=0x41, 0x01, 0x81 mixed); 5: as 3 with Q and Z
+/// exchanged (index1 > index2 in one of 3 / 5).
 #[cfg(kani)]
 pub fn long_needle(family: u8) -> [u8; 33] {
     let mut n = [b'a'; 33];
@@ -132,6 +133,13 @@ pub fn long_needle(family: u8) -> [u8; 33] {
         3 => {
             n[20] = b'Q';
             n[32] = b'Z';
+        }
+        5 => {
+            // same as 3 with the two rare bytes exchanged, so that in one of
+            // the two families the rarest byte (index1) comes AFTER the
+            // second rarest (index2 < index1)
+            n[20] = b'Z';
+            n[32] = b'Q';
         }
         _ => {
             let mut i = 0;
@@ -193,6 +201,8 @@ inst!(long_inert_f0_40, [props=C03+C14 tier=quick cfg=x86std t=1800 role=long-ne
     long_route::<40>(0, 1, true));
 inst!(long_pre_f3_sse2_40, [props=C11+C05+C14+C03+C09+C10 tier=quick cfg=x86std t=1800 role=long-needle-prefilter-fallback uw=@LONGNEW;byte_by_byte:18;One::find_raw.0:6;find_prefilter.0:4;oracle:35], 4,
     long_prefilter_once::<40>(3, 1));
+inst!(long_pre_f5_sse2_40, [props=C11+C05+C03+C09+C10 xprops=C14 tier=quick cfg=x86std t=1800 role=long-needle-prefilter-fallback uw=@LONGNEW;byte_by_byte:18;One::find_raw.0:6;find_prefilter.0:4;oracle:35], 4,
+    long_prefilter_once::<40>(5, 1));
 inst!(long_pre_f0_sse2_40, [props=C11+C05+C03+C09+C10 xprops=C14 tier=quick cfg=x86std t=1800 role=long-needle-prefilter-vector uw=@LONGNEW;byte_by_byte:18;One::find_raw.0:6;find_prefilter.0:4;oracle:35], 4,
     long_prefilter_once::<40>(0, 1));
 
